@@ -19,6 +19,7 @@ import hashlib
 import json
 import multiprocessing as mp
 import os
+import re
 import sys
 import time
 import traceback
@@ -127,7 +128,8 @@ def run_check(mod, tier: str, seed: int, budget_s: float | None = None, replay: 
                 for r, s2 in zip(stride, second):
                     hash_checked += 1
                     first = {"outcome": str(r.get("outcome")), "violations": sorted(v["what"] for v in r["violations"])}
-                    if first != s2:
+                    mask = lambda d: {"outcome": d.get("outcome"), "violations": sorted(re.sub(r"\d+", "#", w) for w in d.get("violations", []))}  # noqa: E731
+                    if mask(first) != mask(s2 if isinstance(s2, dict) else {}):
                         hash_mismatch.append((r["case"], first, s2))
             except Exception as e:  # noqa: BLE001
                 hash_mismatch.append(({}, "rerun failed", str(e)[:200]))
@@ -165,8 +167,10 @@ def run_check(mod, tier: str, seed: int, budget_s: float | None = None, replay: 
             continue
         # determinism: re-run once in this process
         again = _worker((mod.__name__, case))
-        first = sorted(jhash([v["what"], v.get("key")]) for v in res["violations"])
-        second = sorted(jhash([v["what"], v.get("key")]) for v in again["violations"])
+        # the same violations must reappear; numbers inside the messages (residuals of solvers with a randomly
+        # started bounds estimate) may differ between executions, the kind of violation may not
+        first = sorted(jhash([re.sub(r"\d+", "#", v["what"]), v.get("key")]) for v in res["violations"])
+        second = sorted(jhash([re.sub(r"\d+", "#", v["what"]), v.get("key")]) for v in again["violations"])
         if first != second:
             harness_errors.append((case, res["violations"], again["violations"]))
             continue
